@@ -6,11 +6,14 @@ open XV.Sandbox XV.Drv
 
 structure DState where
   r : Reader
-  s : State
-  hist : List Op    -- most recent first
-  res : List Res    -- most recent first
+  x : XState (List TxIn)   -- the sandbox over the first-run utxo reader `listReader`
+  hist : List XOp   -- most recent first
+  res : List XRes   -- most recent first
+  flushed : Bool    -- `Flush` has been called: the execution is over
 
-def DState.init : DState := ⟨memReader Store.empty, State.init, [], []⟩
+def DState.s (d : DState) : State := d.x.kv
+
+def DState.init : DState := ⟨memReader Store.empty, XState.init [], [], [], false⟩
 
 /-- buckets the harness uses: 0 = transient, 1..3 -/
 def buckets : List Nat := [0, 1, 2, 3]
@@ -38,27 +41,85 @@ def itemsStr (l : List (Key × Nat)) : String :=
 
 def rsetSize (s : State) : Nat := (buckets.map (fun b => (s.inputs b).length)).foldl (· + ·) 0
 
-def rwsetStr (s : State) : String :=
+def inStr (u : TxIn) : String := s!"{u.ref}/{u.owner}/{u.amt}"
+def outStr (u : TxOut) : String := s!"{u.to}/{u.amt}"
+def evStr (e : Event) : String := s!"{e.name}/{e.body}"
+
+/-- a reserved entry of the transient bucket as it is printed in the write set -/
+def tentryStr : TEntry → String
+  | .inputs l => "0:I:" ++ ",".intercalate (l.map inStr)
+  | .outputs l => "0:O:" ++ ",".intercalate (l.map outStr)
+  | .events l => "0:E:" ++ ",".intercalate (l.map evStr)
+
+/-- read set (key order) and write set (the order of `RWSet().WSet`); `reserved`: the entries of
+`Flush`, which stand first -/
+def rwsetStr (s : State) (reserved : List TEntry) : String :=
   let rs := buckets.flatMap (fun b => (s.inputs b).map (fun (k, d) => s!"{b}:{k}:{d.ver}:{d.val}"))
   let ws := buckets.flatMap (fun b => (s.outputs b).map (fun (k, d) => s!"{b}:{k}:{d.val}"))
-  " ".intercalate (["R"] ++ rs ++ ["W"] ++ ws)
+  " ".intercalate (["R"] ++ rs ++ ["W"] ++ reserved.map tentryStr ++ ws)
+
+def utxorwStr (u : UState (List TxIn)) : String :=
+  " ".intercalate (["I"] ++ u.uin.map inStr ++ ["O"] ++ u.uout.map outStr)
+
+/-- `<addr>:<amt>,<amt>,...` -/
+def parseUtxoTok (t : String) : Option (Nat × List Nat) :=
+  match t.splitOn ":" with
+  | [a, amts] =>
+    match a.toNat?, (amts.splitOn ",").mapM (·.toNat?) with
+    | some a, some l => some (a, l)
+    | _, _ => none
+  | _ => none
+
+/-- the unspent outputs in selection order; references are numbered along the line -/
+def mkUtxos (ts : List (Nat × List Nat)) : List TxIn :=
+  let flat := ts.flatMap (fun (a, l) => l.map (fun amt => (a, amt)))
+  (flat.zipIdx).map (fun ((a, amt), i) => ⟨i, a, amt⟩)
 
 def bound (t : String) : Option (Option Nat) :=
   if t == "-" then some none else (t.toNat?).map some
 
+def doX (d : DState) (op : XOp) : DState × XRes :=
+  let (x', y) := xstep fixed d.r listReader d.x op
+  ({ d with x := x', hist := op :: d.hist, res := y :: d.res }, y)
+
 def doOp (d : DState) (op : Op) : DState × Res :=
-  let (s', x) := stepOp fixed d.r d.s op
-  ({ d with s := s', hist := op :: d.hist, res := x :: d.res }, x)
+  match doX d (.kv op) with
+  | (d', .kv y) => (d', y)
+  | (d', _) => (d', .done)
 
 def sameItems : Res → Res → Bool
   | a, b => a == b
 
+/-- is the line a call of the contract (refused once `Flush` has ended the execution) -/
+def isCall (w : List String) : Bool :=
+  match w with
+  | op :: _ => ["get", "put", "del", "sel", "xf", "ev", "utxo", "flush"].contains op
+  | [] => false
+
 def step (d : DState) (line : String) : DState × String :=
+  if d.flushed && isCall (words line) then (d, "bad-op") else
   match words line with
   | "reset" :: kind :: es =>
     match es.mapM parseEntry with
-    | some es => if kind == "m" || kind == "x" then (⟨mkReader kind es, State.init, [], []⟩, "ok") else (d, "bad-op")
+    | some es => if kind == "m" || kind == "x" then (⟨mkReader kind es, XState.init [], [], [], false⟩, "ok") else (d, "bad-op")
     | none => (d, "bad-op")
+  | "utxo" :: ts =>
+    match ts.mapM parseUtxoTok with
+    | some l => if d.hist.isEmpty then ({ d with x := XState.init (mkUtxos l) }, "ok") else (d, "bad-op")
+    | none => (d, "bad-op")
+  | ["xf", a, to, amt] =>
+    match a.toNat?, to.toNat?, amt.toNat? with
+    | some a, some to, some amt =>
+      match doX d (.xfer a to amt) with
+      | (d', .xfer true) => (d', "ok")
+      | (d', _) => (d', "err")
+    | _, _, _ => (d, "bad-op")
+  | ["ev", n, b] =>
+    match n.toNat?, b.toNat? with
+    | some n, some b => ((doX d (.event n b)).1, "ok")
+    | _, _ => (d, "bad-op")
+  | ["flush"] => ({ d with flushed := true }, "ok")
+  | ["utxorw"] => (d, utxorwStr d.x.tok)
   | ["get", b, k] =>
     match b.toNat?, k.toNat? with
     | some b, some k =>
@@ -81,11 +142,13 @@ def step (d : DState) (line : String) : DState × String :=
       | (d', .items (some l)) => (d', itemsStr l ++ s!" r={rsetSize d'.s}")
       | (d', _) => (d', "err")
     | _, _, _, _ => (d, "bad-op")
-  | ["rwset"] => (d, rwsetStr d.s)
+  | ["rwset"] => (d, rwsetStr d.s (if d.flushed then d.x.flush.reserved else []))
   | ["rerun"] =>
+    -- `State.verifyTxRWSets`: the same calls over `XMReaderFromRWSet` and `NewUTXOReaderFromInput`
     let ops := d.hist.reverse
-    let (s2, res2) := run fixed (readerFromRWSet d.s) State.init ops
-    let same := res2 == d.res.reverse && buckets.all (fun b => s2.outputs b == d.s.outputs b)
+    let (x2, res2) := xrun fixed (readerFromRWSet d.s) replayReader (XState.init d.x.tok.uin) ops
+    let same := res2 == d.res.reverse && buckets.all (fun b => x2.kv.outputs b == d.s.outputs b)
+      && x2.tok.uin == d.x.tok.uin && x2.tok.uout == d.x.tok.uout && x2.flush.reserved == d.x.flush.reserved
     (d, if same then "same" else "diff")
   | _ => (d, "bad-op")
 
